@@ -20,6 +20,7 @@ import (
 
 	"verif/engine/pbfscen"
 	"verif/engine/vexplore"
+	"verif/gen/pbfgen"
 	"verif/kit"
 )
 
@@ -29,6 +30,7 @@ const (
 	emptyByFilter = 1 // the filter callbacks reject every element of the blocks with an odd number
 	emptyBySkip   = 2 // SkipWays: every way block (block 1, 4, ...) is skipped without decoding
 	variedParams  = 3 // nothing emptied: the first two blocks state block parameters, the later ones omit them
+	bigFirstBlock = 4 // the first block holds 8001 dense nodes: more than any fixed per-block buffer size in the decoder
 )
 
 func pipeline(n, b, bound int, filters, header bool) vexplore.Scenario {
@@ -38,7 +40,7 @@ func pipeline(n, b, bound int, filters, header bool) vexplore.Scenario {
 func pipelineE(n, b, bound int, filters, header bool, empty int) vexplore.Scenario {
 	name := fmt.Sprintf("pipeline procs=%d blocks=%d filters=%v", n, b, filters)
 	if empty != emptyNone {
-		name += []string{"", " odd-blocks-rejected-by-filter", " way-blocks-skipped", " block-params-come-and-go"}[empty]
+		name += []string{"", " odd-blocks-rejected-by-filter", " way-blocks-skipped", " block-params-come-and-go", " first-block-of-8001-nodes"}[empty]
 	}
 	// block of an element id (pbfscen.File: ids are 100*(block+1)+position)
 	keepID := func(id int64) bool { return empty != emptyByFilter || (id/100-1)%2 == 0 }
@@ -49,6 +51,12 @@ func pipelineE(n, b, bound int, filters, header bool, empty int) vexplore.Scenar
 	file := pbfscen.File(b, header)
 	if empty == variedParams {
 		file = pbfscen.FileVaried(b, header)
+	}
+	if empty == bigFirstBlock {
+		d := file.Blocks[0].Groups[0].Dense
+		for i := 0; i < 7999; i++ {
+			d.Nodes = append(d.Nodes, pbfgen.DenseNode(int64(1000+i), int64(i%11)))
+		}
 	}
 	enc := file.Encode()
 	var want []osm.Object
@@ -178,12 +186,18 @@ func main() {
 		// blocks that end up empty for the consumer (rejected by the filters / skipped
 		// by a flag) between blocks that do not: the order of the rest must not change
 		type ecfg struct{ n, b, d, empty int }
-		ecfgs := []ecfg{{2, 5, 1, emptyByFilter}, {3, 5, 1, emptyByFilter}, {2, 5, 1, emptyBySkip}, {12, 5, 1, emptyBySkip}, {1, 4, 1, variedParams}, {2, 6, 1, variedParams}, {3, 6, 1, variedParams}}
+		ecfgs := []ecfg{{2, 5, 1, emptyByFilter}, {3, 5, 1, emptyByFilter}, {2, 5, 1, emptyBySkip}, {12, 5, 1, emptyBySkip}, {1, 4, 1, variedParams}, {2, 6, 1, variedParams}, {3, 6, 1, variedParams},
+			// one decoder far ahead of the consumer (channel capacities add up to ~13 blocks)
+			{1, 16, 0, emptyNone}}
 		if !r.Quick() {
 			ecfgs = []ecfg{{2, 5, 2, emptyByFilter}, {3, 6, 2, emptyByFilter}, {4, 6, 1, emptyByFilter}, {12, 5, 1, emptyByFilter}, {2, 5, 2, emptyBySkip}, {3, 6, 2, emptyBySkip}, {12, 5, 1, emptyBySkip}, {1, 4, 2, variedParams}, {2, 6, 2, variedParams}, {3, 7, 2, variedParams}, {4, 7, 1, variedParams}}
 		}
 		for _, c := range ecfgs {
 			scs = append(scs, pipelineE(c.n, c.b, c.d, true, true, c.empty))
+		}
+		// an oversized block followed by ordinary ones, no filter callbacks
+		for _, n := range []int{2, 3} {
+			scs = append(scs, pipelineE(n, 3, 0, false, true, bigFirstBlock))
 		}
 		for _, c := range sw {
 			sc := pipeline(c.n, c.b, c.d, true, !c.nohdr)
